@@ -1516,4 +1516,36 @@ example :
       (⟨G.init, none, .none⟩, .error ⟨.returnsNotMatch, [.returnsNotMatch 0 1]⟩) :=
   (first_returns_empty_rejected _ _ _ _ rfl (by decide)).1
 
+/-! ## J. Interface callbacks with several wrong-sized slots; symbol names that are only a suffix of a real one -/
+
+/-- interface.go `checkSignature`: with the counts right, **however many slots have the wrong size** (one, two, all of them)
+    the report is the same typed chain `TraceableError → *IllegalParam → *IllegalParamType` — the chain always ENDS in a typed
+    cause, never in a text-only error -/
+theorem iface_size_mismatch_typed (m cb : Sig) (h1 : cb.ins.length = m.ins.length + 1) (h2 : cb.outs.length = m.outs.length)
+    (hbad : ¬ (m.ins.map (·.size) = (cb.ins.drop 1).map (·.size) ∧ m.outs.map (·.size) = cb.outs.map (·.size))) :
+    ifaceSignature m cb = .error ⟨.illegalParam, [.traceable, .illegalParam, .illegalParamType]⟩ := by
+  cases hr : ifaceSignature m cb with
+  | ok u => exact absurd ((ifaceSignature_ok_iff m cb).1 hr).2 hbad
+  | error e =>
+    have hge : ¬ (m.ins.length ≥ cb.ins.length) := by omega
+    unfold ifaceSignature at hr
+    rw [if_neg hge, if_neg (by simpa using h1), if_neg (by simpa using h2)] at hr
+    split at hr
+    · simp [pure, Except.pure] at hr
+    · simp only [rej, Except.error.injEq] at hr; rw [← hr]
+
+/-- non-vacuous: both the parameter and the result have the wrong size -/
+example :
+    let i : Ty := ⟨.int, 8, 25, false, 0⟩
+    let c : Ty := ⟨.ptr, 8, idMockerICtx, false, 0⟩
+    ifaceSignature ⟨[i], [i], false, i⟩ ⟨[c, ⟨.int, 4, 27, false, 0⟩], [⟨.strct, 16, 39, false, 0⟩], false, i⟩ =
+      .error ⟨.illegalParam, [.traceable, .illegalParam, .illegalParamType]⟩ := rfl
+
+/-- func.go:60 / mocker.go:414: a symbol name is looked up EXACTLY; a name the table does not contain — also one that is a
+    path suffix of a real symbol (`tencent/goom.f` for `github.com/tencent/goom.f`) — is `known = false` and is rejected on
+    every route (Apply and As, functions and methods), with nothing touched -/
+theorem unknown_symbol_rejected_all_routes (form : ExportForm) (asCall : Bool) :
+    ∃ e, exportCall form false false asCall = .error e ∧ e.cls = .symbolNotFound := by
+  cases form <;> cases asCall <;> exact ⟨_, rfl, rfl⟩
+
 end C13
